@@ -112,6 +112,9 @@ func Run(ctx *common.Ctx) int {
 	ev, ok := d.S2(ctx, specs, !quick, 1100, func(n int) []int { return []int{32} })
 	cmp.Count("S2 periodic patterns with bit flips", ev)
 	exhaustive = exhaustive && ok
+	fev, fok := d.Fillers(ctx, e2.WordLengths(1000, 20000, 20032), 3, uint64(ctx.Seed))
+	cmp.Count("fillers and biased fillers at every n in 33..200, around powers of two, 1000, 20000", fev)
+	exhaustive = exhaustive && fok
 	cov := cmp.Coverage("S1: every bit string n=1.."+fmt.Sprint(maxN)+" x {binary derivative k=3,7,15; autocorrelation d=1,2,8,16,32; cumulative sums forward/backward}, each from the function's own minimum length; "+
 		"autocorrelation d=32 at n=33..40: all assignments of the readable bits; cumulative sums: every excursion z in 1..n at the listed n; S2 periodic patterns with <=1(2) flips; distinct = distinct (call, reference P) pairs with 0<P<1", exhaustive, nil)
 	return ctx.Finish("exploration", cov, []string{"oracle: refmodel; cumulative-sums limits taken over the reals as the standard writes them", "tolerance 1e-8"})
